@@ -18,7 +18,10 @@ One scenario = one trace:
 The verdict is computed by TLC (spec/immutable/TraceDownload.tla); this file only drives the code, compares
 delivered bytes with the plaintext (`matches`) and classifies share files against their pristine copies.
 """
-from vreactor import vr, settle  # noqa: E402  (must be first)
+import os as _os
+_os.environ.setdefault("VERIF_ASYNC_CPU", "1")   # segment decoding finishes in a later reactor turn, as in production
+import vreactor  # noqa: E402  (must be first)
+from vreactor import vr, settle  # noqa: E402
 import argparse, json, os, random, shutil, struct, sys, tempfile
 
 from twisted.internet import defer
@@ -191,6 +194,15 @@ class Scenario:
         want = rng.choice([1, 2, 2, 3, 3, 4])
         segsize = mathutil.next_multiple(mathutil.div_ceil(size, want), k)
         numsegs = mathutil.div_ceil(size, segsize)
+        # "decode gap" scenarios (profile c03, every tenth): 2-of-3, one share per server, 2..3 segments, no damage; the
+        # share-discovery answer of one server arrives while segment 0 is being decoded (slow CPU pool), and after segment 0
+        # has been delivered one of the two servers used so far loses its connection: k good shares stay reachable
+        self.gap = (prof == "c03" and self.idx % 10 == 9)
+        if self.gap:
+            k, n, S = 2, 3, 3
+            want = rng.choice([2, 3])
+            segsize = mathutil.next_multiple(mathutil.div_ceil(size, want), k)
+            numsegs = mathutil.div_ceil(size, segsize)
         self.k, self.n, self.S, self.segsize, self.size, self.numsegs = k, n, S, segsize, size, numsegs
         self.plaintext = bytes(rng.getrandbits(8) for _ in range(size))
         # inconsistent encoding (tampering encoder)
@@ -214,6 +226,28 @@ class Scenario:
         self._other_file = None
         self._other_enc = None
         self.place()
+        if self.gap:
+            names = sorted(self.g.servers)
+            for i in list(self.inst):                       # spread placement, whatever place() chose
+                if os.path.exists(self.path(*i)):
+                    os.unlink(self.path(*i))
+            self.inst = [(names[sh], sh) for sh in range(self.n)]
+            for (srv, sh) in self.inst:
+                os.makedirs(os.path.dirname(self.path(srv, sh)), exist_ok=True)
+                write_file(self.path(srv, sh), self.pristine[sh])
+            self.content = {i: self.pristine[i[1]] for i in self.inst}
+            self.damaged, self.liars = {}, {}
+            self.reset_everheld()
+            self.server_faults()
+            self.mode = {s2: "ok" for s2 in names}
+            self.late = set()
+            order = list(names)
+            rng.shuffle(order)
+            self.gap_server, self.gap_victim, self.gap_killed = order[0], order[1], False
+            self.reads = [{"id": "r0", "node": "n0", "off": 0, "len": self.size, "trig": "now", "steps": 1}]
+            if rng.random() < 0.5:
+                self.reads.append({"id": "r1", "node": "n0", "off": 0, "len": self.size, "trig": "quiescent", "steps": 1})
+            return
         self.damage()
         self.server_faults()
         self.plan_reads()
@@ -571,6 +605,17 @@ class Scenario:
         held = [j for j, p in enumerate(pend) if p.server in self.late]
         nt = vr.next_timer()
         choice = None
+        if getattr(self, "gap", False):
+            in_gap = nt is not None and 0.001 < nt <= 0.0051            # a decode is running on the (slow) CPU pool
+            slow = [j for j, p in enumerate(pend) if p.server == self.gap_server and p.methname == "get_buckets"]
+            if slow and in_gap:
+                ready, held = slow, []
+            elif slow:
+                ready, held = [j for j in ready if j not in slow], slow
+            if not self.gap_killed and any(e["ev"] == "Deliver" for e in self.events):
+                self.gap_killed = True
+                self.mode[self.gap_victim] = "disconnect"
+                self.nth[self.gap_victim] = 0
         if ready and not (nt is not None and rng.random() < 0.03):
             choice = rng.choice(ready)
         elif nt is not None:
@@ -718,9 +763,17 @@ def main():
             rng = random.Random("%s/%d/%d" % (a.profile, a.seed, idx))
             wd = os.path.join(base, "sc%d" % idx)
             sc = Scenario(rng, a.profile, wd, idx)
+            vreactor.CPU_DELAY[0] = 0.0
             sc.build()
+            # every third scenario has a slow CPU pool: the network answers in flight are delivered while a segment is
+            # being decoded (otherwise the decode completes in the next reactor turn)
+            slow = idx % 3 == 2 or getattr(sc, "gap", False)
+            vreactor.CPU_DELAY[0] = 0.005 if slow else 0.0
             tr = sc.run()
+            vreactor.CPU_DELAY[0] = 0.0
             tr["consts"]["scenario"] = idx
+            tr["consts"]["slow_cpu"] = slow
+            tr["consts"]["decode_gap"] = bool(getattr(sc, "gap", False))
             traces.append(tr)
             shutil.rmtree(wd, ignore_errors=True)
             for c in list(vr.getDelayedCalls()):
